@@ -107,12 +107,9 @@ FINDINGS (known_findings.d/C16.json)
   fixed 417b84b  simplify() returned Piecewise (text not parseable; ZeroDivisionError from the unused branch)
   fixed 6138197  simplify() propagated exceptions of sympy.simplify (ValueError "nan is not comparable",
        PrecisionExhausted) on floor(Min(N, sign(3 - N))/batch) and similar; now best effort (unsimplified dim).
-  known floordiv-on-sympy-numbers: SymbolicDim.__floordiv__ applies Python's // to the SymPy objects; when both have
-       been reduced to NUMBERS that is SymPy's Number.__floordiv__, wrong in 1.14 for an exact quotient by a negative
-       rational (Integer(1) // Rational(-1, 2) == -3): (N/N) // ((2/4) % -1) evaluates to -3, exact -2; the parser's
-       floor(a / b) for the same text gives -2.  Proposed fix: proposed_fixes/C16-floordiv-uses-floor.diff (build
-       floor(a / b) like the parser; the model's reading of //).  Attributed only when every minimal failing subtree is
-       such a `number // number` and SymPy alone reproduces the value.
+  fixed 2c0e87b  SymbolicDim.__floordiv__ applied Python's // to the SymPy objects (for two SymPy NUMBERS that is
+       Number.__floordiv__, wrong in SymPy 1.14 for an exact quotient by a negative rational: 1 // (-1/2) == -3);
+       it now builds floor(a / b) like the parser, which is the model's reading of // (to_model unchanged).
   known sympy-mod-recursion: SymPy 1.14 alone raises RecursionError constructing Mod(N - 2, M + 1) (positive integer
        symbols); (N - 2) % (M + 1) through SymbolicDim raises it too.  Attributed only when SymPy alone raises it.
   known sympy-autoeval-min/-max/-mod: SymPy 1.14 itself evaluates Min(3, floor(3/(batch*x1))) to 3,
